@@ -231,7 +231,7 @@ def expectedSkeleton : Prog :=
     .storeCache .t,       -- 16
     .tryLeave,            -- 17
     .release,             -- 18      finally: ….release()            (normal exit)
-    .jmp 22,              -- 19
+    .respond .w,          -- 19      return [ctx.transport.wsdl]   (normal form: a jump to a terminal instruction is that instruction)
     .release,             -- 20      except Exception: … finally: ….release()   (exit through the handler)
     .respondErr,          -- 21          return [HTTP_500]
     .respond .w ]         -- 22  return [ctx.transport.wsdl]
@@ -241,7 +241,7 @@ def expectedSkeleton : Prog :=
 def elseReleaseSkeleton : Prog :=
   [ .loadCache .t, .jmpIfSome .t 5, .loadPub .t, .jmpIfNone .t 5, .storeCache .t, .loadCache .w,
     .jmpIfSome .w 21, .tryEnter 20, .acquire, .loadCache .w, .jmpIfSome .w 17, .buildBegin, .buildPorts,
-    .buildPublish, .loadPub .t, .mov .w .t, .storeCache .t, .tryLeave, .release, .jmp 21,
+    .buildPublish, .loadPub .t, .mov .w .t, .storeCache .t, .tryLeave, .release, .respond .w,
     .respondErr,          -- 20      except Exception: … return [HTTP_500]      (lock still held)
     .respond .w ]         -- 21
 
